@@ -73,7 +73,7 @@ UNIT = 'Jy'
 _Q = dict(
     boxes=[(1, 1), (2, 3), (3, 2), (8, 8), (0, 2), (2, 0)],
     images=[(5, 6), (1, 1), (3, 4), (6, 2)],
-    weights=['ones', 'checker', 'antichecker', 'frac', 'tiny'],
+    weights=['ones', 'checker', 'antichecker', 'frac', 'tiny', 'frac_list'],
     dtypes=['int64', 'float64', 'quantity', 'uint16'],
     layouts=['C', 'view'],
     fills=['0', '7', 'nan', 'inf'],
@@ -83,7 +83,7 @@ _Q = dict(
 _T = dict(
     boxes=_Q['boxes'] + [(1, 4), (4, 1), (5, 5), (10, 7), (0, 0)],
     images=_Q['images'] + [(1, 5), (7, 1), (2, 2), (4, 4), (0, 3), (3, 0)],
-    weights=_Q['weights'] + ['nondyadic'],
+    weights=_Q['weights'] + ['nondyadic', 'checker_list'],
     dtypes=_Q['dtypes'] + ['int32', 'float32'],
     layouts=['C', 'view', 'F'],
     fills=_Q['fills'] + ['-inf', '-2.5'],
@@ -305,11 +305,16 @@ class Ctx:
         self.geo = geo
         self.wname = wname
         g = geo
-        self.W = [[_weight(wname, j, i) for i in range(g.bnx)] for j in range(g.bny)]
+        # '<pattern>_list': the same weights handed to RegionMask as a nested list instead of an ndarray
+        base = wname[:-5] if wname.endswith('_list') else wname
+        self.W = [[_weight(base, j, i) for i in range(g.bnx)] for j in range(g.bny)]
         self.warr = np.array([[float(w) for w in row] for row in self.W], dtype=np.float64).reshape(g.bny, g.bnx)
         self.wbytes = self.warr.tobytes()
         self.bbox = RegionBoundingBox(g.ixmin, g.ixmin + g.bnx, g.iymin, g.iymin + g.bny)
-        self.mask = RegionMask(self.warr, bbox=self.bbox)
+        if wname.endswith('_list') and g.bny and g.bnx:
+            self.mask = RegionMask(self.warr.tolist(), bbox=self.bbox)
+        else:
+            self.mask = RegionMask(self.warr, bbox=self.bbox)
 
     def base_case(self, method):
         g = self.geo
